@@ -477,7 +477,7 @@ func wmExec(ops []string) []string {
 			case <-all:
 				w2.Stop()
 				res[i] = fmt.Sprintf("early=%d", early.Load())
-			case <-time.After(3 * time.Second):
+			case <-time.After(10 * time.Second):
 				res[i] = fmt.Sprintf("early=%d still-waiting-after-DoneUntil=%d", early.Load(), w2.DoneUntil())
 			}
 		case "waitctx":
